@@ -222,6 +222,33 @@ def checkpoint_reload_invariant(c, geom):
     c.eq('reloaded_cached_likelihood_value_belongs_to_the_reloaded_state', float(t.current_likelihood_logd), ll(x), tol=1e-12)
 
 
+def start_outside_the_support(c, iface, name):
+    """'a proposal whose target log-density is NaN or minus infinity is never accepted' - also when the CURRENT state has density zero (a starting point outside
+    the support: the log-ratio is then nan): the real samplers, started outside a bounded support with a step far too small to reach it, never move
+    (bounded stand-in: native; every proposal of the run lies outside the support)"""
+    import cuqi, io, contextlib
+    from cuqi.distribution import Gaussian, Posterior, UserDefinedDistribution
+    from cuqi.likelihood import UserDefinedLikelihood
+    n = 2
+    inside = lambda v: bool(np.all(np.asarray(v, dtype=float) >= 0) and np.all(np.asarray(v, dtype=float) <= 1))
+    logp = lambda v: 0.0 if inside(v) else -np.inf
+    x0 = np.array([5.0, 5.0]) + 0.1 * np.array([c.real('d0'), c.real('d1')])
+    np.random.seed(int(c.real('seed', lo=0, hi=10 ** 6)))
+    with contextlib.redirect_stdout(io.StringIO()), contextlib.redirect_stderr(io.StringIO()):
+        if name in ('pCN', 'PCN'):
+            tgt = Posterior(UserDefinedLikelihood(dim=n, logpdf_func=logp), Gaussian(5.0 * np.ones(n), 1.0, name='x'))
+        else:
+            tgt = UserDefinedDistribution(dim=n, logpdf_func=logp, gradient_func=lambda v: np.zeros(n))
+        if iface == 'exp':
+            s = getattr(cuqi.experimental.mcmc, name)(tgt, initial_point=x0.copy(), **({'scale': 0.05} if name != 'CWMH' else {'scale': 0.05 * np.ones(n)}))
+            s.sample(25); ch = s.get_samples().samples
+        else:
+            s = getattr(cuqi.sampler, name)(tgt, x0=x0.copy(), scale=0.05)
+            ch = s.sample(25).samples
+    moved = [k for k in range(ch.shape[1]) if not np.array_equal(ch[:, k], x0)]
+    c.holds('no_proposal_of_zero_density_is_ever_accepted', not moved, note=f"{len(moved)} of {ch.shape[1]} recorded states differ from the starting point, first: {ch[:, moved[0]] if moved else None}")
+
+
 def fresh_sampler_invariant(c, name):
     """history 'fresh': a sampler built by its PUBLIC constructor with an explicit starting point x0 (any point, not the default) and initialised
     (also re-initialised) satisfies the invariant the kernel contracts start from - the state is x0 and every cached evaluation is the target's
@@ -542,6 +569,10 @@ def jobs(tier):
     for iface, form in (('exp', 'posterior'), ('leg', 'posterior'), ('leg', 'tuple')):
         J.append(Job(f'{"experimental" if iface == "exp" else "legacy"}.pCN:public_constructor:target_form={form}', lambda c, i=iface, f=form: pcn_target_forms(c, i, f), 'Pbox',
                      [(EXP if iface == 'exp' else LEG) + '._pcn:' + ('PCN.validate_target' if iface == 'exp' else 'pCN.target')], nnum=3))
+    for iface, names in (('exp', ('MH', 'CWMH', 'PCN', 'MALA')), ('leg', ('MH', 'CWMH', 'pCN', 'MALA'))):
+        for name in names:
+            J.append(Job(f'{"experimental" if iface == "exp" else "legacy"}.{name}:start_outside_the_support', lambda c, i=iface, nm=name: start_outside_the_support(c, i, nm), 'B',
+                         [f'{EXP if iface == "exp" else LEG}._{ {"MH": "mh", "CWMH": "cwmh", "PCN": "pcn", "pCN": "pcn", "MALA": "langevin_algorithm"}[name] }:{name}.{"step" if iface == "exp" and name != "MALA" else ("_accept_or_reject" if iface == "exp" else "single_update")}'], nnum=3))
     for geom in ('Continuous1D', 'Mapped'):
         J.append(Job(f'experimental.PCN:history:checkpoint_reload:prior_geometry={geom}', lambda c, g=geom: checkpoint_reload_invariant(c, g), 'B',
                      [EXP + '._sampler:Sampler.save_checkpoint', EXP + '._sampler:Sampler.load_checkpoint', EXP + '._pcn:PCN.step'], nnum=3))
